@@ -70,7 +70,7 @@ def worker(args):
     env = sx.Env(catalog.by_name(name))
     rel = name.split('-')[0]
     reads = env.reads()
-    ops = [op for op in env.ops() if op[0] != 'qdel']       # bulk delete bypasses the cache by design (C15)
+    ops = [op for op in env.ops() if op[0] != 'qdel'] + env.shaping_reads()      # bulk delete bypasses the cache by design (C15)
     auto = env.model.opts.get('pk') == 'auto'
     if auto:
         # an object without a primary key cannot be looked up by key inside the session
@@ -110,7 +110,7 @@ def worker(args):
                 sub.violation(sig, dict(model=name, fixture=fixture, history=small, read=r, in_session=a, fresh_session=b),
                               'after %r the read %r answers %r inside the session but %r from the committed database' % (small, r, a, b))
     full_depth = 1 if tier == 'quick' else 2
-    CORE = ('o2m', 'o2o', 'm2m', 'sym_m2m', 'self_o2m', 'o2m-req')
+    CORE = ('o2m', 'o2o', 'm2m', 'sym_m2m', 'self_o2m', 'o2m-req', 'casc3-opt')
     depth = 2 if (tier != 'quick' or name in CORE) else 1
     def on_state(env_, fixture, hist):
         check_state(fixture, hist, len(hist) <= full_depth)
